@@ -607,13 +607,18 @@ def run(prop, tier, seed, timeout_s, args, t_start):
     known_lines = []
     groups = {}
     for rec in report["obligations"]:
-        if rec["result"] == "unknown":
-            s_, g_ = rec.pop("_script"), rec.pop("_goal")
-            if args.dump:
-                dump_script(args.dump, s_, g_)
-            continue
         if rec["result"] in ("refuted", "cand"):
             groups.setdefault((rec["contract"], strip_lines(rec["name"])), []).append(rec)
+            continue
+        if rec["result"] == "unknown":
+            kf0 = known_for(known, rec["contract"], rec["cfg"], rec["name"])
+            if kf0 is not None and kf0.get("region"):
+                # undecided, but a recorded finding covers part of its input space: decide it outside the region
+                groups.setdefault((rec["contract"], strip_lines(rec["name"])), []).append(rec)
+                continue
+        if rec["result"] == "unknown":
+            if args.dump:
+                dump_script(args.dump, rec["_script"], rec["_goal"])
     replays_left = [int(os.environ.get("VERIF_MAX_REPLAYS", "24"))]
     for (cname, gname), recs in groups.items():
         c = next(x for x in reg.all if x.name == cname)
